@@ -536,6 +536,11 @@ class Sim:
         qp = self.simple_pair(key)
         if qp is None:
             return allowed
+        # machine-integer range: every i64 value is >= i64::MIN and <= i64::MAX
+        if isinstance(qp[1], tuple) and qp[1][1] == -(1 << 63):
+            allowed = allowed & frozenset("=>")
+        if isinstance(qp[1], tuple) and qp[1][1] == (1 << 63) - 1:
+            allowed = allowed & frozenset("=<")
         cons = []
         for k, a in st.rels.items():
             if a is ALL4 or (isinstance(k, tuple)):
